@@ -431,7 +431,8 @@ class Src:
 BLANKS = [" ", " ", " ", "\t", "\xa0", "　", "\x0b", "\x0c", " "]
 ADVERSARIAL = ["x", "a", "word", " ", "Given x", "When ", "* y", "| a | b |", '"""', "```", "Examples:", "Scenario: s", "Feature: f", "Rule: r",
                "Background:", "@tag", "# c", "#language: fr", "<a>", "<b>", "\\", "\\n", "\\|", "a.b", "a(b", "$1", "\\1", "[", "*", "+", "?",
-               "\x85", " ", " ", "\x1c", "\x1d", "\x1e", "é", "\U0001F600", "日本", ":", "  ", "\t", "b"]
+               "\x85", " ", " ", "\x1c", "\x1d", "\x1e", "é", "\U0001F600", "日本", ":", "  ", "\t", "b",
+               "\ufeff", "\u200b", "\u2060", "\u180e", "\ufeffx", "long tail of ordinary prose without any special character in it at all"]
 INDENTS = ["", "", " ", "  ", "    ", "\t", " \t", "      ", "\xa0", "　 ", "\x0b", "   "]
 TRAILS = ["", "", "", " ", "  ", "\t", " \xa0", "　"]
 SEPS = [" ", "", " ", "  ", "\t", " \xa0"]
@@ -542,11 +543,15 @@ def g_rows(s, min_rows=1, max_rows=3, header=None):
         if header is not None and i == 0:
             for c, h in zip(cells, header):
                 c["src"] = h
-        rows.append({"pre": g_miscs(s) if i else [], "indent": g_indent(s), "cells": cells, "trail": g_trail(s)})
+        trail = g_trail(s)
+        if s.int(12) == 0:
+            # anything after the last pipe is ignored - also a long unterminated tail
+            trail = s.choice([" trailing prose after the last pipe", " x" * s.rng(1, 40), " \\", " # not a comment " + "y" * s.rng(0, 60)])
+        rows.append({"pre": g_miscs(s) if i else [], "indent": g_indent(s), "cells": cells, "trail": trail})
     return rows
 
 
-DOC_LINES = ["", " ", "text", "  indented", "Given x", "Scenario: s", "@tag b", "# comment", "#language: fr", "| a |", "OTHER", "ESC", "ESC x ESC",
+DOC_LINES = ["\\ESC", "x\\ESC y", "ESCESC", "\\\\ESC", "\ufeffDELIM", "\ufeff text", "\u200bDELIM", "", " ", "text", "  indented", "Given x", "Scenario: s", "@tag b", "# comment", "#language: fr", "| a |", "OTHER", "ESC", "ESC x ESC",
              "\\DELIM", "Examples:", "\t tab", "      deep", "é\U0001F600", "<a>", "trailing  ", "Feature: f", "* star"]
 
 
